@@ -1,6 +1,6 @@
 CONSTANT Shape <- S222
 CONSTANT MaxLabel = 1
-CONSTANT Cfgs <- CfgAll
+CONSTANT Cfgs <- CfgSmall
 CONSTANT LegacyTpBeforeDecision = FALSE
 CONSTANT LegacyMergeIgnoresDirection = FALSE
 CONSTANT LegacyGlobalFlags = FALSE
